@@ -72,6 +72,11 @@ def queries(tier):
                 igrid = [(9, 9)]          # ISAP on the bit-sliced layout costs ~260 s per shape (layout model inside 300 permutation stubs)
             for ad, m in igrid:
                 qs.append(dec_query("isap", alg, ad, m, be))
+        if tier == "quick":
+            # one full-block + partial-block AEAD shape on the remaining back ends (their SnP macros differ: seed C02-7); the full grid is thorough / C09
+            for be in ("direct", "generic", "x86asm"):
+                qs.append(dec_query("aead", alg, r + 1, r + 1, be))
+                qs.append(dec_query("aead", alg, r, 2 * r + 1, be))
         for fam in ("aead", "siv", "isap"):
             for short in ([0, 15] if tier == "quick" else range(0, 16)):
                 qs.append(dec_query(fam, alg, 3, 0, "c64", mode=4, short=short))
